@@ -11,6 +11,7 @@ LIB-SSE CODE
 @description: 
 """
 import json
+import os
 import pathlib
 import pickle
 import shutil
@@ -21,12 +22,24 @@ if not _PROGRAM_PATH.exists():
     _PROGRAM_PATH.mkdir(exist_ok=True)
 
 
+def _atomic_write(path: pathlib.Path, data: bytes):
+    """Write to a temporary file and rename it over the target, so that a crash never leaves a truncated file."""
+    tmp_path = path.with_name(path.name + ".tmp")
+    with open(tmp_path, "wb") as f:
+        f.write(data)
+    os.replace(tmp_path, path)
+
+
 def check_sid_folder_exist(sid: str):
-    return _PROGRAM_PATH.joinpath(sid).exists()
+    # A service exists once its config and meta have both been stored;
+    # a folder left behind by an interrupted upload counts as not existing.
+    return _PROGRAM_PATH.joinpath(sid).exists() \
+           and _PROGRAM_PATH.joinpath(sid).joinpath("config.json").exists() \
+           and _PROGRAM_PATH.joinpath(sid).joinpath("service_meta").exists()
 
 
 def create_sid_folder(sid: str):
-    _PROGRAM_PATH.joinpath(sid).mkdir()
+    _PROGRAM_PATH.joinpath(sid).mkdir(exist_ok=True)
 
 
 def delete_sid_folder(sid: str):
@@ -42,8 +55,7 @@ def write_service_config(sid: str, config: dict):
     if not service_dir_path.exists():
         return
 
-    with open(service_dir_path.joinpath("config.json"), "w") as f:
-        json.dump(config, f)
+    _atomic_write(service_dir_path.joinpath("config.json"), json.dumps(config).encode("utf8"))
 
 
 def read_service_meta(sid: str) -> dict:
@@ -55,8 +67,7 @@ def write_service_meta(sid: str, meta: dict):
     if not service_dir_path.exists():
         return
 
-    with open(service_dir_path.joinpath("service_meta"), "wb") as f:
-        pickle.dump(meta, f)
+    _atomic_write(service_dir_path.joinpath("service_meta"), pickle.dumps(meta))
 
 
 def read_encrypted_database(sid: str) -> bytes:
@@ -69,5 +80,4 @@ def write_encrypted_database(sid: str, edb_bytes: bytes):
     if not service_dir_path.exists():
         return
 
-    with open(service_dir_path.joinpath("edb"), "wb") as f:
-        f.write(edb_bytes)
+    _atomic_write(service_dir_path.joinpath("edb"), edb_bytes)
